@@ -20,7 +20,7 @@ import (
 
 // watermarkRound drives one y.WaterMark under badger's usage contract (Begin calls are serialised
 // in non-decreasing index order; Done in any order) with shadow counters and an observer.
-func watermarkRound(c *core.Ctx, round int, nWorkers, nIdx int, dup bool) {
+func watermarkRound(c *core.Ctx, round int, nWorkers, nIdx int, dup, sparse bool) {
 	r := c.Rand(fmt.Sprintf("c34-wm-%d", round))
 	closer := z.NewCloser(1)
 	w := &y.WaterMark{Name: "verif"}
@@ -29,7 +29,7 @@ func watermarkRound(c *core.Ctx, round int, nWorkers, nIdx int, dup bool) {
 	const maxIdx = 1 << 14
 	begun := make([]atomic.Int32, maxIdx)
 	doneCalled := make([]atomic.Int32, maxIdx)
-	var next atomic.Uint64
+	var next, lastBegun atomic.Uint64
 	next.Store(1)
 	var mu sync.Mutex
 	var wg sync.WaitGroup
@@ -98,11 +98,18 @@ func watermarkRound(c *core.Ctx, round int, nWorkers, nIdx int, dup bool) {
 			rr := c.Rand(fmt.Sprintf("c34-wm-%d-%d-%d", round, g, seeds[g]))
 			for n := 0; n < nIdx; n++ {
 				mu.Lock()
-				idx := next.Add(1) - 1
+				prev := next.Load() - 1
+				step := uint64(1)
+				if sparse {
+					step = uint64(1 + rr.Intn(5)) // sparse timestamps: indices in the gaps are never begun
+				}
+				idx := next.Add(step) - 1
 				if idx >= maxIdx-1 {
+					next.Add(^(step - 1)) // undo
 					mu.Unlock()
 					return
 				}
+				lastBegun.Store(idx)
 				w.Begin(idx)
 				begun[idx].Add(1)
 				twice := dup && rr.Intn(3) == 0
@@ -124,7 +131,13 @@ func watermarkRound(c *core.Ctx, round int, nWorkers, nIdx int, dup bool) {
 					}(idx)
 				}
 				if rr.Intn(5) == 0 {
-					startWaiter(idx)
+					// a reader may wait for any timestamp up to the newest begun one, also one that no
+					// commit ever used (it is released when the mark passes it)
+					target := idx
+					if sparse && idx > prev+1 {
+						target = prev + 1 + uint64(rr.Int63n(int64(idx-prev)))
+					}
+					startWaiter(target)
 				}
 				switch rr.Intn(4) {
 				case 0:
@@ -141,7 +154,7 @@ func watermarkRound(c *core.Ctx, round int, nWorkers, nIdx int, dup bool) {
 	waiterWG.Wait()
 	close(stopObs)
 	obsWG.Wait()
-	final := next.Load() - 1
+	final := lastBegun.Load()
 	deadline := time.Now().Add(5 * time.Second)
 	for w.DoneUntil() < final && time.Now().Before(deadline) {
 		time.Sleep(time.Millisecond)
@@ -154,10 +167,10 @@ func watermarkRound(c *core.Ctx, round int, nWorkers, nIdx int, dup bool) {
 	c.Count("wm.observations_with_pending_indices", pendingSeen.Load())
 	c.Count("wm.indices", int64(final))
 	if b := bad.Load(); b != nil {
-		c.Violation("C34|watermark|"+firstWords(b.(string)), b.(string), map[string]any{"workers": nWorkers, "indices": final, "duplicates": dup})
+		c.Violation("C34|watermark|"+firstWords(b.(string)), b.(string), map[string]any{"workers": nWorkers, "indices": final, "duplicates": dup, "sparse": sparse})
 	}
 	if pendingSeen.Load() > 0 {
-		c.Distinct(fmt.Sprintf("watermark|workers=%d|dup=%v", nWorkers, dup))
+		c.Distinct(fmt.Sprintf("watermark|workers=%d|dup=%v|sparse=%v", nWorkers, dup, sparse))
 	}
 }
 
@@ -301,7 +314,7 @@ func firstWords(s string) string {
 
 // C34 the oracle and watermarks never expose unfinished commits or strand readers.
 func C34(c *core.Ctx) {
-	c.Rule("(i) y.WaterMark under badger's usage contract (Begin serialised in increasing order, an index may be held twice at once, Done in any order) with 4-16 goroutines, shadow counters " +
+	c.Rule("(i) y.WaterMark under badger's usage contract (Begin serialised in increasing order - contiguous or, in half of the rounds, sparse with readers waiting on never-begun timestamps inside the gaps -, an index may be held twice at once, Done in any order) with 4-16 goroutines, shadow counters " +
 		"updated after Begin returns / before Done is called, and an observer that snapshots them around DoneUntil(): an index <= DoneUntil with more returned Begins than started " +
 		"Dones is a violation; waiters must return (and only once DoneUntil >= index), a waiter still blocked 20 s after everything was done is a lost wake-up; (ii) recorded " +
 		"histories of many small commits and transaction starts with delays at commit.afterTs / write.afterVlog / commit.beforeDone / readts.beforeWait, monitored through hooks: " +
@@ -309,8 +322,8 @@ func C34(c *core.Ctx) {
 		"every transaction sees all commits <= its read timestamp; (iv) stop behaviour: after the closer was signalled (oracle.Stop in Close) Begin/Done/WaitForMark " +
 		"must not block (more marks than the channel holds are sent), and transactions started by 8 goroutines while Close completes must all return; (iii) race-detector reports in y/watermark.go or the oracle are violations; distinct = configurations in which the " +
 		"monitored window was actually observed open")
-	for i := 0; i < c.Pick(40, 400); i++ {
-		watermarkRound(c, i, 4+i%13, c.Pick(150, 400), i%2 == 1)
+	for i, v0 := 0, c.Violations(); i < c.Pick(40, 400) && c.Violations() == v0; i++ { // a stuck waiter costs 20 s: stop at the first
+		watermarkRound(c, i, 4+i%13, c.Pick(150, 400), i%2 == 1, i%4 >= 2)
 	}
 	// (ii)
 	work := c.WorkDir()
